@@ -103,7 +103,42 @@ def url_encode_component(sp):
     return {'ret': ('val', VStr(URL_QUOTE(s_(sp.a[0]), z3.StringVal("'"))))}
 
 
+def json_stringify(sp):
+    # jsonStringify(value, indent): the serialisation of the value tree; the indent is used as the integer it denotes
+    from pyvc.models_calls import JSON_TEXT
+    from pyvc.core import VInt, VNone, is_none
+    ind = sp.a[1]
+    return {'ret': ('val', VStr(JSON_TEXT(sp.h.term(), sp.a[0], z3.If(is_none(ind), VNone, VInt(as_index(ind))))))}
+
+
+class JsonParse(LibFn):
+    """jsonParse(string): the value json.loads gives (a dependency: arbitrary JSON value or ValueError); the decoded
+    containers are new on every call and nothing that existed before is modified"""
+
+    def __init__(self):
+        super().__init__('jsonParse', 'library._json_parse', '_JSON_PARSE_ARGS', None, lambda sp: {'ret': ('any',)})
+
+    def post(self, K, out):
+        obs = super().post(K, out)
+        if out.kind == 'return':
+            from pyvc.core import is_list, is_dict
+            res = K.ctx.to_term(out.value)
+            b = K.heap.alloc
+            obs.append(('C14.decoded-containers-are-new', z3.And(z3.Implies(is_list(res), V.lref(res) >= b),
+                                                                 z3.Implies(is_dict(res), V.dref(res) >= b))))
+        elif K.ip.exc_isinstance(out.exc, 'ValueArgsError') is not True:
+            # invalid text: the decoder's ValueError leaves the call (the expression evaluator turns it into null); it can
+            # only happen for valid arguments
+            sp, valid = self.view(K)
+            obs = [(l, f) for l, f in obs if l not in ('fails-only-when-invalid', 'failure-value')]
+            obs.append(('fails-for-valid-arguments-only-with-the-decoders-error',
+                        z3.And(valid, z3.BoolVal(out.exc.f.get('cls') == 'JSONDecodeError'))))
+        return obs
+
+
 LIB = [
+    JsonParse(),
+    LibFn('jsonStringify', 'library._json_stringify', '_JSON_STRINGIFY_ARGS', None, json_stringify),
     LibFn('stringCharCodeAt', 'library._string_char_code_at', '_STRING_CHAR_CODE_AT_ARGS', None, char_code_at),
     LibFn('stringEndsWith', 'library._string_ends_with', '_STRING_ENDS_WITH_ARGS', None, ends_with),
     LibFn('stringIndexOf', 'library._string_index_of', '_STRING_INDEX_OF_ARGS', -1, index_of),
